@@ -293,9 +293,23 @@ def census_walks(cx, prog=None):
         return _WALKS[id(prog)]
     res = []
     applied = set()
+    inlined = set()
+    from analysis.sym import _known_fns
+    known = _known_fns()
+    later = []
     for d, b in prog.bodies.items():
         if b['kind'] not in ('Fn', 'AssocFn') or 'body' not in b or prog.is_derived(b):
             continue
+        if known and d not in known and '::test::' not in d:
+            later.append(d)          # a function the rules do not know (an extracted helper): seen through its callers
+            continue
+        w = cx.walk(d, prog=prog, key='census')
+        applied |= w.applied
+        inlined |= getattr(w, 'inlined_fns', set())
+        res.append((d, w))
+    for d in later:
+        if d in inlined:
+            continue                 # its events are already attributed to the functions that call it
         w = cx.walk(d, prog=prog, key='census')
         applied |= w.applied
         res.append((d, w))
